@@ -54,20 +54,20 @@ func (f *Fn) Root() *Fn {
 }
 
 type Prog struct {
-	Dir     string
-	Mod     string // module path of the analysed tree
-	Fset    *token.FileSet
-	Pkgs    []*packages.Package          // first-party, sorted by path
-	ByPath  map[string]*packages.Package // import path -> package
-	Fns     []*Fn
-	ByObj   map[*types.Func]*Fn
-	ByLit   map[*ast.FuncLit]*Fn
-	parent  map[ast.Node]ast.Node
-	objID   map[types.Object]int
-	SSA     *ssa.Program
-	SSAPkgs map[string]*ssa.Package
-	Tags    string
-	Goarch  string
+	Dir       string
+	Mod       string // module path of the analysed tree
+	Fset      *token.FileSet
+	Pkgs      []*packages.Package          // first-party, sorted by path
+	ByPath    map[string]*packages.Package // import path -> package
+	Fns       []*Fn
+	ByObj     map[*types.Func]*Fn
+	ByLit     map[*ast.FuncLit]*Fn
+	parent    map[ast.Node]ast.Node
+	objID     map[types.Object]int
+	SSA       *ssa.Program
+	SSAPkgs   map[string]*ssa.Package
+	Tags      string
+	Goarch    string
 	siteCount map[*types.Func]int
 	inlViews  map[*Fn]*Fn
 	alias     map[types.Object]aliasTo
